@@ -12,6 +12,7 @@ import (
 	"github.com/anthdm/hollywood/actor"
 
 	"verif/harness/core"
+	simctx "verif/sim/simctx"
 	"verif/sim/simrt"
 )
 
@@ -94,6 +95,7 @@ type Spec struct {
 	Children      []*Spec // spawned while handling Started
 	SlowStarted   bool    // yield a few times inside Started
 	SlowStopped   int     // yield this many times inside Stopped (a shutdown that takes a while)
+	UserCtx       bool    // spawned WithContext(the run's cancellable user context)
 }
 
 func (s *Spec) FullID() string { return s.Kind + "/" + s.ID }
@@ -199,6 +201,19 @@ type Env struct {
 	// middleware slices handed to WithMiddleware for several actors (same
 	// backing array, spare capacity), by length
 	mwBases map[int][]actor.MiddlewareFunc
+	userCtx simctx.Context
+	// CancelUserContext cancels UserContext()
+	CancelUserContext func()
+}
+
+// UserContext is the application's own cancellable context that specs with
+// UserCtx are spawned with (actor.WithContext). Cancelling it is the
+// application's business: it must not change how the actor is stopped.
+func (env *Env) UserContext() simctx.Context {
+	if env.userCtx == nil {
+		env.userCtx, env.CancelUserContext = simctx.WithCancel(simctx.Background())
+	}
+	return env.userCtx
 }
 
 // sharedBase returns the slice every spec with MWBase == n passes to
@@ -318,6 +333,9 @@ func (env *Env) opts(spec *Spec) []actor.OptFunc {
 	o := []actor.OptFunc{actor.WithID(spec.ID), actor.WithMaxRestarts(spec.MaxRestarts), actor.WithRestartDelay(spec.RestartDelay)}
 	if spec.InboxSize > 0 {
 		o = append(o, actor.WithInboxSize(spec.InboxSize))
+	}
+	if spec.UserCtx {
+		o = append(o, actor.WithContext(env.UserContext()))
 	}
 	if n := spec.MWBase; n > 0 && n < spec.NMiddleware {
 		// the first n come from a slice shared with other actors, the rest are this actor's own
